@@ -241,4 +241,5 @@ UNITS.append(_aca_any_unit("C08"))
 
 # every container arm adapts a copy: the list / dict the caller gave (it reaches the arm by reference inside an OrderedDict or a tuple) is not written
 from contracts.adapt_arms import arms_units as _c08_arms_units  # noqa: E402
-UNITS += [u for u in _c08_arms_units("C08") if u.label in ("Tuple/Set", "List", "Dict")]
+from contracts.share import only_clauses as _only_clauses  # noqa: E402
+UNITS += [_only_clauses(u, "C08", kinds=("frame",), label="frame-clauses") for u in _c08_arms_units("C08") if u.label in ("Tuple/Set", "List", "Dict")]  # which value conforms is C02's clause (and its findings)
